@@ -94,12 +94,10 @@ example : AllGood h0 [s0] ∧ ∃ h' ss', Reach Cfg.fixed 6 h0 [s0] h' ss' ∧ s
       (Reach.transform 0 [.vis hideDog] s0 (h2, s2) rfl hr2 (Reach.done _ _))), rfl⟩
 
 /-- the variant in the working tree -/
-theorem current_history_closed_framed (hd : PyGql.Generated.HeapCfg.currentCfg.deepClone = true)
-    (hk : PyGql.Generated.HeapCfg.currentCfg.keepAllTypes = true) (hacc : PyGql.Generated.HeapCfg.currentCfg.accumulateBusted = true)
-    (hx : PyGql.Generated.HeapCfg.currentCfg.extKeepAll = true) (hin : PyGql.Generated.HeapCfg.currentCfg.extInputFieldExtended = true)
+theorem current_history_closed_framed
     (fuel : Nat) (h : Heap) (ss : List Schema) (h' : Heap) (ss' : List Schema)
     (r : Reach PyGql.Generated.HeapCfg.currentCfg fuel h ss h' ss') (g : AllGood h ss) :
     Frame h h' ∧ AllGood h' ss' ∧ ∃ more, ss' = ss ++ more :=
-  history_closed_framed _ hd hk hacc hx hin fuel h ss h' ss' r g
+  history_closed_framed _ cur_deepClone cur_keepAllTypes cur_accumulateBusted cur_extKeepAll cur_extInputFieldExtended fuel h ss h' ss' r g
 
 end PyGql.Props.C14
